@@ -302,16 +302,9 @@ def dec_bool(p, res):
         else:
             res.ok('%s applies %s' % (fn, key))
     # create_attribute: trailing '.' => boolean, leading '!' => implied, independent of each other
-    ca = p.func('abbreviation.convert.create_attribute')
-    s = src_of(ca.node)
-    ifs = [n for n in ca.body_nodes() if isinstance(n, ast.If) and ("name[-1] == '.'" in src_of(n.test) or "name[0] == '!'" in src_of(n.test) or "name[:1] == '!'" in src_of(n.test) or "startswith('!')" in src_of(n.test) or "endswith('.')" in src_of(n.test))]
-    pm = p.parents(ca)
-    indep = len(ifs) == 2 and all(not n.orelse for n in ifs) and pm.get(ifs[0]) is pm.get(ifs[1])
-    if indep and 'boolean = True' in src_of(ifs[0]) + src_of(ifs[1]) and 'implied = True' in src_of(ifs[0]) + src_of(ifs[1]):
-        res.ok("create_attribute: '.' suffix and '!' prefix are tested independently")
-    else:
-        res.bad(F('DEC-BOOL', ca, ca.node, "tests of name[-1] == '.' and name[0] == '!'",
-                  "the boolean marker '.' and the implied marker '!' must be recognised independently (an attribute may carry both)"))
+    from .tablecheck import check_table
+    check_table(p, res, 'DEC-BOOL', 'abbreviation.convert.create_attribute',
+                "the boolean marker '.' (suffix) and the implied marker '!' (prefix) are recognised independently of each other: an attribute may carry both")
     res.require_floor(60)
 
 
@@ -324,19 +317,28 @@ def dec_directhit(p, res):
     lowered = set(srcs[:2]) == {'str1 = str1.lower()', 'str2 = str2.lower()'}
     eq = len(body) > 2 and isinstance(body[2], ast.If) and src_of(body[2].test) in ('str1 == str2', 'str2 == str1') \
         and len(body[2].body) == 1 and isinstance(body[2].body[0], ast.Return) and p.try_const(cs, body[2].body[0].value) == 1
+    n_lower = sum(1 for n in cs.body_nodes() if isinstance(n, ast.Call) and isinstance(n.func, ast.Attribute) and n.func.attr in ('lower', 'casefold'))
     if lowered:
         res.ok('both strings are lower-cased first')
-    else:
+    elif n_lower == 0:
         res.bad(F('DEC-DIRECTHIT', cs, cs.node, '; '.join(srcs[:2]), 'matching is case-insensitive: both strings must be lower-cased before comparison'))
+    else:
+        res.undecided('calculate_score: %s' % '; '.join(srcs[:2]), 'both strings are lower-cased before anything else')
+    eq_any = [n for n in cs.body_nodes() if isinstance(n, ast.If) and isinstance(n.test, ast.Compare) and len(n.test.ops) == 1 and isinstance(n.test.ops[0], ast.Eq)
+              and {src_of(n.test.left), src_of(n.test.comparators[0])} == set(cs.params[:2])]
     if eq:
         res.ok('if str1 == str2: return 1 precedes every other exit')
-    else:
+    elif not eq_any and lowered:
         res.bad(F('DEC-DIRECTHIT', cs, body[2] if len(body) > 2 else cs.node, srcs[2] if len(srcs) > 2 else '?', 'equal strings must return exactly 1 before any other test'))
+    else:
+        res.undecided('calculate_score: %s' % (srcs[2] if len(srcs) > 2 else '?'), 'equal strings return exactly 1 before any other test')
     # every other return is 0 or the final quotient
     rets = [n for n in cs.body_nodes() if isinstance(n, ast.Return)]
     others = [src_of(r.value) for r in rets[1:]]
     if all(o == '0' for o in others[:-1]) and others and others[-1] == 'score * match_ratio / max_score':
         res.ok('other exits: 0 or score * match_ratio / max_score')
+    elif not any(isinstance(x, ast.Call) and isinstance(x.func, ast.Name) and x.func.id in ('min', 'max', 'round', 'int') for r in rets for x in ast.walk(r)):
+        res.undecided('calculate_score returns: %s' % others, 'other exits: 0 or score * match_ratio / max_score')
     else:
         res.bad(F('DEC-DIRECTHIT', cs, rets[-1], 'returns: %s' % others, 'the fuzzy score must be returned unclamped (a clamped score can equal 1 for unequal strings and is then taken for a direct hit)'))
     fb = p.func('stylesheet.find_best_match')
@@ -367,8 +369,11 @@ def dec_directhit(p, res):
         res.bad(F('DEC-DIRECTHIT', gp, gp.node, src_of(gp.node.body[-1]), 'snippets are matched by their key'))
     # resolve_node looks the property name up among the scope-filtered snippets with partial matching
     rn = p.func('stylesheet.resolve_node')
-    if 'find_best_match(node.name, snippets, score, True)' in src_of(rn.node):
+    calls = [n for n in rn.body_nodes() if isinstance(n, ast.Call) and isinstance(n.func, ast.Name) and n.func.id == 'find_best_match']
+    if any(src_of(n) == 'find_best_match(node.name, snippets, score, True)' for n in calls):
         res.ok('resolve_node: find_best_match(node.name, snippets, score, True)')
+    elif any(len(n.args) >= 4 and p.try_const(rn, n.args[3]) is False and src_of(n.args[0]) == 'node.name' for n in calls):
+        res.bad(F('DEC-DIRECTHIT', rn, rn.node, 'find_best_match call in resolve_node', 'property names are matched with partial matching (a prefix of a key is a candidate)'))
     else:
-        res.bad(F('DEC-DIRECTHIT', rn, rn.node, 'find_best_match call in resolve_node', 'property names are matched against the scope-filtered snippet list'))
+        res.undecided('resolve_node: find_best_match(..)', 'property names are matched against the scope-filtered snippet list with partial matching')
     res.require_floor(7)
